@@ -148,3 +148,99 @@ ALL = [
     (DEGREE, "heavy", "ImmutableKnotVector.degree", None),
     (NPTS, "heavy", "ImmutableKnotVector.npts", None),
 ]
+
+
+# --------------------------------------------------------------------------------------
+# the constructor as a callee (its own body is checked per shape by engine S and exhaustively by engine B in C03;
+# the V proof of __is_valid/__new__ is not done, so at proof level this is an ASSUMED contract: A10)
+# --------------------------------------------------------------------------------------
+ACC = z3.Function("ACCEPTS", z3.ArraySort(z3.IntSort(), z3.RealSort()), z3.IntSort(), z3.BoolSort())
+
+
+def new_kv(st, seq, prefix="kvnew"):
+    p, n = fresh_int(prefix + "_p"), fresh_int(prefix + "_n")
+    o = Obj("ImmutableKnotVector", {"_seq": Seq(seq.arr, seq.n), "_ImmutableKnotVector__degree": Num(p, True),
+                                    "_ImmutableKnotVector__npts": Num(n, True)})
+    for f in wf_z3(seq.arr, seq.n, p, n):
+        st.assume(f)
+    return o
+
+
+def ctor(eng, st, seq, node, exits, hint_p=None, label="ImmutableKnotVector"):
+    """ImmutableKnotVector(seq): returns an instance whose elements are seq and which is well-formed for its (inferred) degree,
+    or raises ValueError exactly when seq is not well-formed for any degree.  With hint_p: obligation WF(seq, hint_p) => no raise, degree hint_p."""
+    if isinstance(seq, Obj) and seq.cls == "ImmutableKnotVector":
+        return seq
+    if not isinstance(seq, Seq):
+        raise E.Unsupported("ImmutableKnotVector() of %r" % (seq,))
+    if hint_p is not None:
+        n = seq.n - hint_p - 1
+        for k, f in enumerate(wf_z3(seq.arr, seq.n, hint_p, n)):
+            eng.vc(st, f, "call:%s:wellformed-for-degree-hint:%d@L%s" % (label, k, node.lineno), node.lineno)
+        o = Obj("ImmutableKnotVector", {"_seq": Seq(seq.arr, seq.n), "_ImmutableKnotVector__degree": Num(hint_p, True),
+                                        "_ImmutableKnotVector__npts": Num(n, True)})
+        for f in wf_z3(seq.arr, seq.n, hint_p, n):
+            st.assume(f)
+        return o
+    eng.raise_exc(st, "ValueError", z3.Not(ACC(seq.arr, seq.n)), node.lineno, exits)
+    return new_kv(st, seq)
+
+
+def h_class_call(eng, st, args, kw, node, exits):
+    hint = eng.c.spec.get("ctor_hint")
+    return ctor(eng, st, args[0], node, exits, hint(eng, st, args[0]) if hint else None)
+
+
+def h_sorted(eng, st, args, kw, node, exits):
+    """sorted(list): assumed builtin contract — same length, non-decreasing, a permutation of the argument (the permutation is not
+    expressed in first-order form; the result is remembered as the ghost value SORTED_OF_ARG)."""
+    a = args[0]
+    r = E.fresh_seq("sorted")
+    r.is_list = True
+    st.assume(r.n == a.n)
+    st.assume(sorted_z3(r.arr, r.n))
+    st.env["SORTED_RESULT"] = r
+    st.env["SORTED_ARG"] = a
+    return r
+
+
+def same_seq(se, a, b):
+    return E.BoolV(z3.And(a.n == b.n, a.arr == b.arr))
+
+
+ADD = Contract(
+    "heavy.ImmutableKnotVector.__add__",
+    params={"self": "obj:ImmutableKnotVector", "nodes": "seq"},
+    setup=setup_self,
+    spec={"same_seq": same_seq},
+    ensures=["all(U[p] <= nodes[k] and nodes[k] <= U[n] for k in range(len(nodes)))",
+             "same_seq(result.U, SORTED_RESULT)", "len(SORTED_ARG) == len(U) + len(nodes)",
+             "all(SORTED_ARG[i] == U[i] for i in range(len(U)))", "all(SORTED_ARG[len(U) + k] == nodes[k] for k in range(len(nodes)))"],
+    raises={"ValueError": None},
+    loops={0: dict(invariant=["0 <= it0 and it0 <= len(nodes)", "umin == U[p] and umax == U[n]",
+                              "all(U[p] <= nodes[k] and nodes[k] <= U[n] for k in range(it0))"], decreases="len(nodes) - it0")},
+    calls=dict(KV_CALLS, **{"call:self.__class__": CallSpec(h_class_call), "sorted": CallSpec(h_sorted)}),
+    covers=["len(nodes) == 0", "len(nodes) == 2"],
+    canary="len(result.U) == len(U)",
+)
+
+SUB = Contract(
+    "heavy.ImmutableKnotVector.__sub__",
+    params={"self": "obj:ImmutableKnotVector", "nodes": "seq"},
+    setup=setup_self,
+    spec={"same_seq": same_seq},
+    ensures=["len(result.U) == len(U) - len(nodes)", "same_seq(result.U, lista)",
+             "all(result.U[i] <= result.U[i + 1] for i in range(len(result.U) - 1))"],
+    raises={"ValueError": None},
+    loops={0: dict(invariant=["0 <= it0 and it0 <= len(nodes)", "len(lista) == len(U) - it0",
+                              "all(all(lista[i] <= lista[j] for j in range(i, len(lista))) for i in range(len(lista)))"],
+                   decreases="len(nodes) - it0")},
+    calls=dict(KV_CALLS, **{"call:self.__class__": CallSpec(h_class_call)}),
+    covers=["len(nodes) == 1"],
+    canary="len(result.U) == len(U)",
+)
+
+ALL += [
+    (ADD, "heavy", "ImmutableKnotVector.__add__", None),
+    (SUB, "heavy", "ImmutableKnotVector.__sub__", None),
+]
